@@ -154,3 +154,41 @@ Lemma gen_provisional_publish_shape : src_provisional_publish = map s2b [
   "r.delegations.SetUntil(key, parentDS, authservers, minNonZero(cutDeadline, time.Now().Add(time.Minute)))";
   "addrs, err := r.lookupNSAddrV4(ctx, name, cd)" ].
 Proof. vm_compute. reflexivity. Qed.
+
+(* session 5: the statements Model.minimize / Model.dispose_min / Model.deleg_core's minimised branch restate.
+   Resolver.minimize (the name computation itself is tied through the generated dns.PrevLabel in Proofs_minname.v) *)
+Lemma gen_minimize_shape : src_minimize = map s2b [
+  "if r.qnameMinLevel == 0 || nomin {";
+  "if level >= r.qnameMinLevel || q.Name == rootzone {";
+  "prev, end := dns.PrevLabel(q.Name, level+1)";
+  "if end {";
+  "minName := q.Name[prev:]";
+  "if minName == q.Name {";
+  "minReq.Question[0].Name = minName" ].
+Proof. vm_compute. reflexivity. Qed.
+
+(* Resolver.resolve: what is done with the reply, by response code, sections and the minimized flag *)
+Lemma gen_min_ladder_shape : src_min_ladder = map s2b [
+  "if resp.Rcode != dns.RcodeSuccess && len(resp.Answer) == 0 && len(resp.Ns) == 0 {";
+  "if minimized {";
+  "if !minimized && len(resp.Answer) > 0 {";
+  "if minimized && (len(resp.Answer) == 0 && len(resp.Ns) == 0) || len(resp.Answer) > 0 {";
+  "if len(resp.Ns) > 0 {" ].
+Proof. vm_compute. reflexivity. Qed.
+
+(* processAuthoritySection: a SOA or CNAME in the Authority section of a minimised hop means "go on"; then the ladder
+   no NS host -> authority, SOA -> authority, else processDelegation *)
+Lemma gen_min_authority_shape : src_min_authority = map s2b [
+  "if minimized {";
+  "case *dns.SOA, *dns.CNAME:";
+  "nsInfo := r.extractDelegationInfo(resp)";
+  "if len(nsInfo.hosts) == 0 {";
+  "if nsInfo.hasSOA {";
+  "return r.processDelegation(ctx, rs, resp, nsInfo, minimized)" ].
+Proof. vm_compute. reflexivity. Qed.
+
+(* processDelegation: with no reachable server a minimised hop above the referral's owner goes on *)
+Lemma gen_min_noservers_shape : src_min_noservers = map s2b [
+  "if len(authservers.List) == 0 {";
+  "if minimized && rs.level < nlevel {" ].
+Proof. vm_compute. reflexivity. Qed.
